@@ -8,7 +8,9 @@ pub mod c05;
 pub mod c06;
 pub mod c07;
 pub mod c08;
+pub mod c08_nodes;
 pub mod c09;
+pub mod c09_nodes;
 pub mod c10;
 pub mod c11;
 pub mod c12;
